@@ -24,7 +24,7 @@ LEVEL_TEXT = ('A state is the full recursive snapshot (path, type, size, hash) o
 LEVEL_NOTE = ('trees beyond the menu are not explored; of the non-regular entries only a dangling symbolic link is included (a '
               'FIFO would block every reading mode); --clean ordering is C12')
 RULE = ('initial states = all subsets of {T1_50000001, T2_50000002, T3_50000002.bak, other.txt, archive/T4_50000004, '
-        'archive/T5_50000001, 50000001/ (directory), T6_00500A07 (id with leading zeros)}; transitions = 38 command templates; BFS to depth 2 (quick) or 3 '
+        'archive/T5_50000001, 50000001/ (directory), T6_00500A07 (id with leading zeros)}; transitions = 49 command templates; BFS to depth 2 (quick) or 3 '
         '(thorough) with snapshot deduplication. Non-trivial: transition whose model effect is not the identity, or any '
         'transition from a non-initial state; distinct by (state, command).')
 ASSUMPTIONS = ['which of several files containing the id --delete removes is not fixed']
@@ -47,6 +47,8 @@ COMMANDS = [
     ['-f', '@pels/T1_50000001'], ['-f', '@pels/T1_50000001', '-x'], ['-f', '@pels/other.txt'], ['-f', '@pels/archive/T4_50000004'],
     ['-j'], ['-j', '-o', '@out'], ['-j', '-e', '.bak', '-o', '@out'], ['-j', '-E', '-o', '@out'], ['-j', '-E'],
     ['-d', '50000001'], ['-d', '0x50000002'], ['-d', '50000003'], ['-d', '50000004'], ['-d', '00500a07'], ['-i', '0x00500A07'], ['-d', '5000000'], ['-d', '50000002', '-e', '.bak'],
+    ['-i', '50000001', '-c'], ['-i', '0x50000002', '-x', '-c'], ['-l', '-c'], ['-a', '-E', '-c'], ['-n', '-c'], ['--plid', '50000001', '-c'],
+    ['--src', 'BD8D', '-c'], ['--bmc-id', '2', '-c'], ['--src-exclude', '@exclude.txt', '-c'],
     ['-D'], ['-D', '-e', '.bak'], ['-j', '-c', '-E', '-o', '@out'], ['-f', '@pels/T2_50000002', '-c'], ['-l', '-P'],
 ]
 
